@@ -22,7 +22,7 @@ CONSTANTS
   InsSet <- InsSmall
   MinEdits = 0
   Randomised = FALSE
-  DumpMod = 23
+  DumpMod = 41
   NRepl = 17
   RichOnly = TRUE
   NeedStruct = FALSE
